@@ -456,14 +456,28 @@ LEMMA_PROOFS["L_cumsum_tel"] = _cumsum_tel_proof
 # bid identifies the betas array (arrid). For concrete p <= 3 the definition is expanded explicitly (PEN_EXPLICIT).
 _PSC = z3.Function("PSC", _I, _I, _I, _R, _I, _R)
 SPEC_FUNCS["PSC"] = lambda eng, st, tok, s, e, alpha, bid: _PSC(to_z3(tok), to_z3(s), to_z3(e), to_z3(to_real(alpha)), to_z3(bid))
-_CG = z3.Function("CG", _I, _R)          # optimal total penalised saving of the prefix of length T (per verification context)
-_CA = z3.Function("CA", _I, _I)          # an optimal collective start for prefix T when the collective option attains CG(T)
-SPEC_FUNCS["CG"] = lambda eng, st, T: _CG(to_z3(T))
-SPEC_FUNCS["CA"] = lambda eng, st, T: _CA(to_z3(T))
+# CG(tokc, tokp, T): optimal total penalised saving of the prefix of length T for the savings fitted with tokens tokc / tokp
+# (penalties, m, M are those of the verification context); CA: an optimal collective start when the collective option attains CG.
+_CG3 = z3.Function("CG", _I, _I, _I, _R)
+_CA3 = z3.Function("CA", _I, _I, _I, _I)
+SPEC_FUNCS["CG"] = lambda eng, st, tc, tp, T: _CG3(to_z3(tc), to_z3(tp), to_z3(T))
+SPEC_FUNCS["CA"] = lambda eng, st, tc, tp, T: _CA3(to_z3(tc), to_z3(tp), to_z3(T))
+
+
+@spec("ZEROS1")
+def _zeros1(eng, st):
+    return z3.Int("ID_zeros1")
+
+
+@spec("frame_of")
+def _frame_of(eng, st, x):
+    return Opaque("frame", x)
 
 
 @spec("arrid")
 def _arrid(eng, st, a):
+    if a.fn is None and len(a.shape) == 1 and isinstance(a.shape[0], int) and a.shape[0] == 1 and is_concrete(a.get(0)) and a.get(0) == 0:
+        return z3.Int("ID_zeros1")      # canonical identity of np.zeros(1) (CAPA's "no per-component penalty")
     if a.fn is None:
         a2 = eng.materialise(st, a, "idarr")
         a.fn = a2.fn
@@ -472,22 +486,30 @@ def _arrid(eng, st, a):
 
 @spec("CAPA_THEORY")
 def _capa_theory(eng, st, tokc, ac, bidc, tokp, ap, bidp, m, M, n):
-    """Bellman characterisation of CG for the given savings / penalties (definition of the spec function)."""
-    tokc, tokp, bidc, bidp, m, M, n = [to_z3(x) for x in (tokc, tokp, bidc, bidp, m, M, n)]
+    """Bellman characterisation of CG for the given savings / penalties (definition of the spec function).
+    tokc / tokp may be the string 'all' (quantified: the facts hold for every pair of fits)."""
+    allt = isinstance(tokc, str) and tokc == "all"
+    tokc = z3.Int("tokc!ct") if allt else to_z3(tokc)
+    tokp = z3.Int("tokp!ct") if allt else to_z3(tokp)
+    tv = [tokc, tokp] if allt else []
+    bidc, bidp, m, M, n = [to_z3(x) for x in (bidc, bidp, m, M, n)]
     ac, ap = to_z3(to_real(ac)), to_z3(to_real(ap))
     PSc = lambda s, e: _PSC(tokc, s, e, ac, bidc)
     PSp = lambda t: _PSC(tokp, t, t + 1, ap, bidp)
+    _CG = lambda T: _CG3(tokc, tokp, T)
+    _CA = lambda T: _CA3(tokc, tokp, T)
     T, s = z3.Ints("T!ct s!ct")
     eng.note_assumption("definition of the spec function CG (optimal total penalised saving per prefix) by its Bellman equations: CG(0)=0, "
                         "CG(T)=max(CG(T-1), CG(T-1)+PSp(T-1), max over s with m<=T-s<=M of CG(s)+PSc(s,T)); CA(T) attains the collective option")
     return z3.And(
-        _CG(0) == 0,
-        # stated over t = T-1 with patterns that cannot re-trigger themselves (no matching loop through CG(T-1))
-        z3.ForAll([T], z3.Implies(z3.And(0 <= T, T < n), z3.And(_CG(T + 1) >= _CG(T), _CG(T + 1) >= _CG(T) + PSp(T))), patterns=[_CA(T + 1)]),      # instantiated only where the ghost code names CA(t + 1)
-        z3.ForAll([T, s], z3.Implies(z3.And(1 <= T, T <= n, 0 <= s, m <= T - s, T - s <= M), _CG(T) >= _CG(s) + PSc(s, T)), patterns=[PSc(s, T)]),
-        z3.ForAll([T], z3.Implies(z3.And(1 <= T, T <= n),
-                                  z3.Or(_CG(T) == _CG(T - 1), _CG(T) == _CG(T - 1) + PSp(T - 1),
-                                        z3.And(0 <= _CA(T), m <= T - _CA(T), T - _CA(T) <= M, _CG(T) == _CG(_CA(T)) + PSc(_CA(T), T)))),
+        z3.ForAll(tv, _CG(0) == 0, patterns=[_CG(0)]) if allt else _CG(0) == 0,
+        # stated over t = T-1, instantiated only where the ghost code names CA(t + 1) (no matching loop through CG(T-1))
+        z3.ForAll(tv + [T], z3.Implies(z3.And(0 <= T, T < n), z3.And(_CG(T + 1) >= _CG(T), _CG(T + 1) >= _CG(T) + PSp(T))), patterns=[_CA(T + 1)]),
+        z3.ForAll(tv + [T, s], z3.Implies(z3.And(1 <= T, T <= n, 0 <= s, m <= T - s, T - s <= M), _CG(T) >= _CG(s) + PSc(s, T)),
+                  patterns=[z3.MultiPattern(PSc(s, T), _CG(T))] if allt else [PSc(s, T)]),
+        z3.ForAll(tv + [T], z3.Implies(z3.And(1 <= T, T <= n),
+                                       z3.Or(_CG(T) == _CG(T - 1), _CG(T) == _CG(T - 1) + PSp(T - 1),
+                                             z3.And(0 <= _CA(T), m <= T - _CA(T), T - _CA(T) <= M, _CG(T) == _CG(_CA(T)) + PSc(_CA(T), T)))),
                   patterns=[_CA(T)]),
     )
 
@@ -495,11 +517,13 @@ def _capa_theory(eng, st, tokc, ac, bidc, tokp, ap, bidp, m, M, n):
 @spec("CAPA_SUBADD")
 def _capa_subadd(eng, st, tokc, ac, bidc, P, m, M, n):
     """Penalised sub-additivity under splitting: PSc(a,c) <= PSc(a,b) + PSc(b,c) + P (P = alpha + sum of betas), side condition of C03."""
-    tokc, bidc, m, M, n = [to_z3(x) for x in (tokc, bidc, m, M, n)]
+    allt = isinstance(tokc, str) and tokc == "all"
+    tokc = z3.Int("tokc!cs") if allt else to_z3(tokc)
+    bidc, m, M, n = [to_z3(x) for x in (bidc, m, M, n)]
     ac, P = to_z3(to_real(ac)), to_z3(to_real(P))
     PSc = lambda s, e: _PSC(tokc, s, e, ac, bidc)
     a, b, c = z3.Ints("a!cs b!cs c!cs")
-    return z3.ForAll([a, b, c], z3.Implies(z3.And(0 <= a, a + m <= b, b + m <= c, c <= n, c - a <= M), PSc(a, c) <= PSc(a, b) + PSc(b, c) + P),
+    return z3.ForAll(([tokc] if allt else []) + [a, b, c], z3.Implies(z3.And(0 <= a, a + m <= b, b + m <= c, c <= n, c - a <= M), PSc(a, c) <= PSc(a, b) + PSc(b, c) + P),
                      patterns=[z3.MultiPattern(PSc(a, b), PSc(b, c))])
 
 
@@ -507,3 +531,18 @@ def _capa_subadd(eng, st, tokc, ac, bidc, P, m, M, n):
 def _vsum(eng, st, a):
     """sum of a 1-D array, the same term the engine uses for a.sum() / np.sum(a)."""
     return eng.np_sum(st, [a], {}, None)
+
+_HASNAN = {}
+
+
+@spec("HASNAN")
+def _hasnan(eng, st, a):
+    """uninterpreted: the frame / array contains a missing value"""
+    if a.fn is None:
+        a2 = eng.materialise(st, a, "nanarg")
+        a.fn = a2.fn
+    return z3.Bool("HASNAN_" + a.fn.name())
+
+_MWTHR = z3.Function("MWTHR", _I, _I, _I, _R, _R)
+SPEC_FUNCS["MWTHR"] = lambda eng, st, n, p, b, level: _MWTHR(to_z3(n), to_z3(p), to_z3(b), to_z3(to_real(level)))
+_QUANT = z3.Function("QUANTILE", _I, _R, _R)      # np.quantile(scores-array id, q)
